@@ -2,6 +2,7 @@ package gen
 
 import (
 	"fmt"
+	"strings"
 
 	"verifharness/prng"
 )
@@ -35,6 +36,10 @@ func AddPlant(r *prng.R, p *Prog, kind string, cfg Cfg) {
 	id := func(s string) int { return add(s, KIdent) }
 	pl := Plant{Kind: kind, Tok: -1, StmtFirst: first}
 	uniq := fmt.Sprintf("pl%d", r.Intn(100000))
+	if r.Chance(1, 5) {
+		// names longer than any plausible fixed-size message buffer
+		uniq += strings.Repeat("q", prng.Pick(r, []int{58, 64, 65, 120, 300, 1100}))
+	}
 	lead := func() {
 		switch r.Intn(3) {
 		case 0:
@@ -288,4 +293,31 @@ func AddWide(r *prng.R, p *Prog, n int, locals bool) {
 	}
 	p.Toks = append(toks, p.Toks...)
 	p.NStmts += n
+}
+
+// LeadingLexFails are characters that cannot start a token; at the very beginning of the input
+// (where an editor may have left a byte-order mark) they are a lexical failure like anywhere else.
+var LeadingLexFails = []string{"\ufeff", "@", "`", "$", "\ufeff"}
+
+// AddLeadingLexFail puts one such character in front of the program as its first token and
+// records it as a planted lexical failure; every other plant moves one token to the right.
+func AddLeadingLexFail(r *prng.R, p *Prog, cfg Cfg) {
+	for i := range p.Toks {
+		p.Toks[i].Stmt++
+	}
+	for i := range p.Plants {
+		if p.Plants[i].Tok >= 0 {
+			p.Plants[i].Tok++
+		}
+		p.Plants[i].StmtFirst++
+		p.Plants[i].StmtLast++
+	}
+	p.Toks = append([]Tok{{Text: prng.Pick(r, LeadingLexFails), Kind: KPunct, Stmt: 0}}, p.Toks...)
+	p.NStmts++
+	p.Plants = append([]Plant{{Kind: "ct.lex", Tok: 0, Match: "unknown char", StmtFirst: 0, StmtLast: 0}}, p.Plants...)
+	p.Layout(r, cfg)
+	if r.Chance(2, 3) {
+		p.Seps[0] = "" // at offset 0, as a byte-order mark would be
+		p.Render()
+	}
 }
